@@ -1,4 +1,170 @@
-(* Property C04 - statements closed by `exact`, each followed by Print Assumptions. *)
-From Coq Require Import ZArith List.
-From Life Require Import LifeSpec LifeModel.
+(* Property C04 - statements closed by `exact`, each followed by Print Assumptions, plus
+   non-vacuity Examples.
+
+   Clause of the statement                                   theorem
+   ---------------------------------------------------------------------------------------------
+   "each stored element and key is constructed exactly once and destroyed exactly once - at
+    removal, clear, overwrite or container destruction -, is never touched after its
+    destruction, and no memory is leaked or freed twice"
+                                                             lifetimes_exact_once (whole program:
+                                                             no lifetime error, the complete event
+                                                             log passes the independent ledger,
+                                                             nothing is left), no_leak_no_sharing
+                                                             (between operations: live instances /
+                                                             allocations = those owned by exactly
+                                                             one container variable)
+   "copies made by construction or assignment (including assignment of a container to itself)
+    are deep and independent of the source"                  copies_are_deep, no_leak_no_sharing,
+                                                             step_refines_spec (x = x is the
+                                                             identity of the spec)
+   "operations whose argument is the container itself or a reference to one of its own elements
+    behave as if that argument had been copied first"        alias_args_as_if_copied, alias_step,
+                                                             dealias_is_copy_first (pure: the
+                                                             spec's evaluation of aliased
+                                                             arguments = explicit copy first)
+   All theorems are about the Model (LifeModel.v); its tie to the C++ code is the
+   correspondence check (checks/C04.py).  Memory below the model's allocations (the allocator
+   itself) is observed by ASan/the ledger of the harness only. *)
+From Coq Require Import ZArith List Bool.
+From Life Require Import LifeSpec LifeModel LifeBase LifeSpecProofs LifeStep LifeMain LifeAlias.
 Import ListNotations.
+
+(* Every history, followed by the destruction of all containers: no lifetime error occurs, the
+   complete event log is well bracketed (every instance constructed once, copied from / assigned
+   only while live, destroyed exactly once; every allocation released exactly once) and no
+   instance or allocation is left. *)
+Theorem lifetimes_exact_once : forall (nv : nat) (ops : list op),
+  exists st st', run (init nv) ops = Ok st /\ finish st = Ok st' /\
+                 well_bracketed (log (sw st')) = true /\ heap (sw st') = [] /\ blks (sw st') = [].
+Proof. exact lifetimes_exact_once_proof. Qed.
+Print Assumptions lifetimes_exact_once.
+
+(* Between operations: the live instances (allocations) are exactly the ones owned by the
+   container variables, and none is owned twice - nothing leaks, nothing is shared. *)
+Theorem no_leak_no_sharing : forall (nv : nat) (ops : list op) (st : state),
+  run (init nv) ops = Ok st ->
+  NoDup (all_ids (svars st)) /\ NoDup (all_bks (svars st)) /\
+  (forall i, In i (dom (heap (sw st))) <-> In i (all_ids (svars st))) /\
+  (forall b, In b (blks (sw st)) <-> In b (all_bks (svars st))).
+Proof. exact no_leak_no_sharing_proof. Qed.
+Print Assumptions no_leak_no_sharing.
+
+(* Every operation in every reachable state succeeds and does to the contents what the spec
+   says (in particular x = x, x.append(x), a.append(a[i]) are the spec's value semantics). *)
+Theorem step_refines_spec : forall (nv : nat) (ops : list op) (st : state) (o : op),
+  run (init nv) ops = Ok st ->
+  exists b st', step st o = Ok (b, st') /\ spec_step (abs st) o = (b, abs st').
+Proof. exact step_refines_spec_proof. Qed.
+Print Assumptions step_refines_spec.
+
+Theorem run_refines_spec : forall (nv : nat) (ops : list op) (st : state),
+  run (init nv) ops = Ok st -> abs st = spec_run (sinit nv) ops.
+Proof. exact run_refines_spec_proof. Qed.
+Print Assumptions run_refines_spec.
+
+(* After x := copy of y (construction or assignment) x has y's content, y is unchanged, and any
+   further history that does not write z leaves z's content alone (z := y: histories on the
+   copy do not reach the source; z := x: vice versa). *)
+Theorem copies_are_deep : forall (nv : nat) (ops1 : list op) (st1 : state) (c : op) (st2 : state) (x y : nat),
+  run (init nv) ops1 = Ok st1 -> (c = OCopyNew x y \/ c = OAssign x y) -> step st1 c = Ok (true, st2) ->
+  sget (abs st2) x = sget (abs st1) y /\
+  (x <> y -> sget (abs st2) y = sget (abs st1) y) /\
+  forall ops z st3, (forall o, In o ops -> ~ In z (writes o)) -> run st2 ops = Ok st3 ->
+                    sget (abs st3) z = sget (abs st2) z.
+Proof. exact copies_are_deep_proof. Qed.
+Print Assumptions copies_are_deep.
+
+(* The spec's reading of an aliased argument is "copy first": pure statement about the spec. *)
+Theorem dealias_is_copy_first : forall (s : sstate) (t : nat) (o : op),
+  sdead s t = true -> ~ In t (mentions o) -> spec_run s (dealias s t o) = snd (spec_step s o).
+Proof. exact dealias_spec. Qed.
+Print Assumptions dealias_is_copy_first.
+
+(* One operation with aliased arguments in a reachable state, against its de-aliased form (the
+   element reference replaced by its current value, the container argument by a copy made in
+   the unused variable t): same contents afterwards. *)
+Theorem alias_step : forall (nv : nat) (ops : list op) (st : state) (o : op) (t : nat),
+  run (init nv) ops = Ok st -> isdead (svars st) t = true -> ~ In t (mentions o) ->
+  exists b st1 st2, step st o = Ok (b, st1) /\ run st (dealias (abs st) t o) = Ok st2 /\ abs st2 = abs st1.
+Proof. exact alias_step_proof. Qed.
+Print Assumptions alias_step.
+
+(* Whole histories: obs (run ops) = obs (run (dealias ops)). *)
+Theorem alias_args_as_if_copied : forall (nv : nat) (ops : list op) (t : nat),
+  (t < nv)%nat -> (forall o, In o ops -> ~ In t (mentions o)) ->
+  exists st1 st2, run (init nv) ops = Ok st1 /\ run (init nv) (dealias_run (sinit nv) t ops) = Ok st2 /\
+                  abs st2 = abs st1.
+Proof. exact alias_args_as_if_copied_proof. Qed.
+Print Assumptions alias_args_as_if_copied.
+
+(* ---------------------------------------------------------------------------------------- *)
+(* non-vacuity                                                                                *)
+(* ---------------------------------------------------------------------------------------- *)
+(* a history with self-assignment, append(a[0]) at the growth boundary, resize(n, a[1]),
+   List::append(self), a MultiMap copy, Map::insert(self), HashSet::remove(self) *)
+Definition ex_hist : list op :=
+  [ONew 0 KArray; OIns 0 PBack (AVal 0) (AVal 5); OIns 0 PBack (AVal 0) (AVal 6); OIns 0 PBack (AVal 0) (AVal 7);
+   OIns 0 PBack (AVal 0) (AValOf 0 0); OResize 0 9 (AValOf 0 1); OAssign 0 0; OAddAll 0 PBack 0; ORemAt 0 2;
+   OCopyNew 1 0; ODel 0; ODel 1;
+   ONew 0 KList; OIns 0 PBack (AVal 0) (AVal 1); OIns 0 PFront (AVal 0) (AValOf 0 0); OAddAll 0 PBack 0;
+   OAddAll 0 PFront 0; OAssign 0 0; ODel 0;
+   ONew 0 KMultiMap; OIns 0 PBack (AVal 3) (AVal 1); OIns 0 PBack (AVal 3) (AValOf 0 0); OCopyNew 1 0;
+   OAssign 1 1; OAssign 0 1; ODel 0; ODel 1;
+   ONew 0 KMap; OIns 0 PBack (AVal 2) (AVal 1); OIns 0 PBack (AKey 0 0) (AVal 9); OAddAll 0 PBack 0; OAssign 0 0;
+   ONew 1 KHashSet; OIns 1 PBack (AVal 4) (AVal 0); OIns 1 PFront (AVal 5) (AVal 0); ORemAll 1 1; OAssign 1 1;
+   ONew 2 KPoolMap; OIns 2 PBack (AVal 1) (AVal 0); ORemKey 2 (AKey 2 0)].
+
+Example lifetimes_nonvacuous :
+  match run (init 3) ex_hist with
+  | Ok st => match finish st with
+             | Ok st' => well_bracketed (log (sw st')) && Nat.ltb 150 (length (log (sw st'))) &&
+                         Nat.eqb (length (heap (sw st))) 7
+             | Err _ => false
+             end
+  | Err _ => false
+  end = true.
+Proof. vm_compute. reflexivity. Qed.
+
+(* the ledger does reject bad logs (newest event first): double destruction, copy from a dead
+   instance, a leaked instance, a block freed twice, an id constructed twice *)
+Example ledger_rejects :
+  (well_bracketed [EDestroy 1; EDestroy 1; EVal 1 5%Z] || well_bracketed [EDestroy 2; ECopy 2 1; EDestroy 1; EVal 1 5%Z]
+   || well_bracketed [EVal 1 5%Z] || well_bracketed [EFree 1; EFree 1; EAlloc 1] || well_bracketed [EDestroy 1; EDef 1; EDestroy 1; EDef 1]) = false.
+Proof. vm_compute. reflexivity. Qed.
+
+(* the model does see the defect the repair removes: Array::append without the copy reads the
+   argument after reserve() destroyed it *)
+Example unrepaired_append_is_an_error :
+  match run (init 1) [ONew 0 KArray; OIns 0 PBack (AVal 0) (AVal 5); OIns 0 PBack (AVal 0) (AVal 6); OIns 0 PBack (AVal 0) (AVal 7)] with
+  | Ok st => match getv (svars st) 0 with
+             | Some (CA a) => match arr_append_fit a (hd 0 (aelems a)) (sw st) with
+                              | Err (EUseAfterFree _) => true
+                              | _ => false
+                              end
+             | _ => false
+             end
+  | Err _ => false
+  end = true.
+Proof. vm_compute. reflexivity. Qed.
+
+Example copies_nonvacuous :
+  match run (init 3) [ONew 0 KMultiMap; OIns 0 PBack (AVal 3) (AVal 1); OIns 0 PBack (AVal 3) (AVal 2)] with
+  | Ok st1 => match step st1 (OCopyNew 1 0) with
+              | Ok (true, st2) => match run st2 [OIns 1 PBack (AVal 1) (AVal 7); ORemAt 1 1; OClear 1] with
+                                  | Ok st3 => match sget (abs st3) 0 with
+                                              | Some (KMultiMap, [(Some 3, Some 1); (Some 3, Some 2)]%Z) => true
+                                              | _ => false
+                                              end
+                                  | Err _ => false
+                                  end
+              | _ => false
+              end
+  | Err _ => false
+  end = true.
+Proof. vm_compute. reflexivity. Qed.
+
+Example alias_nonvacuous :
+  dealias_run (sinit 3) 2 [ONew 0 KList; OIns 0 PBack (AVal 0) (AVal 4); OIns 0 PFront (AVal 0) (AValOf 0 0); OAddAll 0 PBack 0; OAssign 0 0]
+  = [ONew 0 KList; OIns 0 PBack (AVal 0) (AVal 4); OIns 0 PFront (AVal 0) (AVal 4);
+     OCopyNew 2 0; OAddAll 0 PBack 2; ODel 2; OCopyNew 2 0; OAssign 0 2; ODel 2].
+Proof. vm_compute. reflexivity. Qed.
